@@ -185,6 +185,12 @@ def generated(ctx, backend, mode, n):
     ctx.given("parse", {"s": gen.url_string(gen.text(max_tokens=4))}, max_examples=n // 3, fixed={"backend": backend, "mode": mode}, tag="grammar")
 
 
+def fuzz_campaign(ctx, runs):
+    """coverage-guided tier (atheris/libFuzzer): oracle inside the target, empty and seeded corpus; a failure is re-run through the ordinary case checker"""
+    from .. import fuzz
+    fuzz.campaign(ctx, "split", runs, ctx.seed, "parse", "fuzz/split")
+
+
 def shards(tier, seed):
     n = 6000 if tier == "quick" else 150000
     k = 2 if tier == "quick" else 4
@@ -193,4 +199,5 @@ def shards(tier, seed):
         for mode in ("enc", "auto"):
             for i in range(k):
                 out.append({"name": "%s-%s-%d" % (mode, b, i), "fn": "generated", "kw": {"backend": b, "mode": mode, "n": n}})
+    out.append({"name": "fuzz", "fn": "fuzz_campaign", "kw": {"runs": 100000 if tier == "quick" else 5000000}})
     return out
